@@ -22,6 +22,8 @@ CONSTANTS Pi, Ai, Bi, Ni, Gxi, Gyi, CL,
           AssocFull,        \* TRUE: all triples; FALSE: all pairs x AssocSample points
           AssocSample,
           DecLens,          \* string lengths checked exhaustively by the decoder tasks
+          DecFirst,         \* first bytes tried for the longest length (all 256 for the shorter ones)
+          MulXMax,          \* the mul task runs for points with abscissa <= MulXMax
           Groups            \* fan-out width
 BN == INSTANCE BigNat
 E  == INSTANCE EC WITH P <- BN!FromInt(Pi), A <- BN!FromInt(Ai), B <- BN!FromInt(Bi), N <- BN!FromInt(Ni),
@@ -99,23 +101,26 @@ RoundTrip(x) == \A Q \in PointsAt(x) :
   /\ Must(IF Q = E!Inf THEN TRUE ELSE (~E!Decode(E!Hybrid(Q)).ok /\ E!DecodeForms(E!Hybrid(Q), {"h"}) = [ok |-> TRUE, pt |-> Q]), <<"hybrid", Q>>)
 
 Canon == UNION {{E!Uncompressed(Q), E!Compressed(Q)} : Q \in Points}
-(* coordinates tried in 2-byte uncompressed strings: everything up to 2p+1 and the top of the range *)
+(* coordinates tried in 2-byte uncompressed strings: everything up to 2p+1, the top of the range, every multiple of 256 *)
 CoordVals == IF CL = 1 THEN 0..255 ELSE (0..(2 * Pi + 1)) \cup {65535 - i : i \in 0..3} \cup {256 * i : i \in 8..255}
 CoordStr(v) == IF CL = 1 THEN <<v>> ELSE <<v \div 256, v % 256>>
-(* all strings of length len whose first byte is b *)
-Strings(len, b) ==
-  IF len = 1 THEN {<<b>>}
-  ELSE IF len = 1 + 2 * CL /\ CL = 2 THEN {<<b>> \o CoordStr(x) \o CoordStr(y) : x \in CoordVals, y \in CoordVals}
-  ELSE {<<b>> \o t : t \in [1..(len - 1) -> 0..255]}
+(* one string: accepted iff canonical, and then the decoded point re-encodes to it (quantifiers are nested so that *)
+(* no set of strings is ever built)                                                                               *)
+StrOK(s) == LET d == E!Decode(s)
+            IN IF d.ok THEN Must(s \in Canon /\ E!Encode(d.pt, IF s[1] = 4 THEN "u" ELSE "c") = s, <<"accepted but not canonical", s>>)
+               ELSE Must(s \notin Canon, <<"canonical encoding refused", s>>)
+(* all strings of length len whose first byte is b (for 2-byte coordinates and the uncompressed length: coordinates in CoordVals) *)
 DecTask(len, b) ==
   IF len = 0 THEN Must(~E!Decode(<<>>).ok, "empty string")
-  ELSE LET ss == Strings(len, b)
-           acc == {s \in ss : E!Decode(s).ok}
-       IN /\ Must(acc = Canon \cap ss, <<"accept set", len, b, acc, Canon \cap ss>>)
-          /\ \A s \in acc : Must(E!Encode(E!Decode(s).pt, IF s[1] = 4 THEN "u" ELSE "c") = s, <<"decoded point re-encodes", s>>)
-
+  ELSE IF len = 1 THEN StrOK(<<b>>)
+  ELSE IF len = 1 + 2 * CL /\ CL = 2 THEN \A x \in CoordVals : \A y \in CoordVals : StrOK(<<b>> \o CoordStr(x) \o CoordStr(y))
+  ELSE IF len = 2 THEN \A b2 \in 0..255 : StrOK(<<b, b2>>)
+  ELSE IF len = 3 THEN \A b2 \in 0..255 : \A b3 \in 0..255 : StrOK(<<b, b2, b3>>)
+  ELSE IF len = 4 THEN \A b2 \in 0..255 : \A b3 \in 0..255 : \A b4 \in 0..255 : StrOK(<<b, b2, b3, b4>>)
+  ELSE Must(FALSE, <<"unsupported length", len>>)
 (* ---- task machine ---- *)
 Xs == -1..(Pi - 1)
+MaxDecLen == CHOOSE l \in DecLens : \A m \in DecLens : m <= l
 Tasks == {<<"basic", 0, 0>>}
          \cup {<<k, x, 0>> : k \in {"pairs", "assoc", "mul", "rt"}, x \in Xs}
          \cup {<<"dec", len, b>> : len \in DecLens, b \in 0..255}
@@ -123,9 +128,9 @@ Weight(t) == IF t[1] = "dec" THEN t[3] ELSE t[2] + 1      \* spreads tasks over 
 Check(t) == CASE t[1] = "basic" -> Basic
               [] t[1] = "pairs" -> Pairs(t[2])
               [] t[1] = "assoc" -> Assoc(t[2])
-              [] t[1] = "mul"   -> MulTask(t[2])
+              [] t[1] = "mul"   -> (IF t[2] > MulXMax THEN TRUE ELSE MulTask(t[2]))
               [] t[1] = "rt"    -> RoundTrip(t[2])
-              [] t[1] = "dec"   -> (IF t[2] = 0 /\ t[3] > 0 THEN TRUE ELSE DecTask(t[2], t[3]))
+              [] t[1] = "dec"   -> (IF (t[2] = 0 /\ t[3] > 0) \/ (t[2] = MaxDecLen /\ t[3] \notin DecFirst) THEN TRUE ELSE DecTask(t[2], t[3]))
 
 VARIABLES task, ok
 vars == <<task, ok>>
